@@ -9,6 +9,8 @@ import (
 	"github.com/btcsuite/btcd/wire/v2"
 	"github.com/lightninglabs/neutrino"
 	"github.com/lightninglabs/neutrino/query"
+
+	"verif/internal/chaingen"
 )
 
 // ScriptNet is the scripted network seen by the block manager in L1: it
@@ -35,6 +37,30 @@ type ScriptNet struct {
 	QueriesAll   int
 	QueriesBatch int
 	BlocksServed int
+
+	// BlockFault, when set, is consulted on every GetBlock call for a block
+	// the generator knows: nthForBlock / nthOverall count the calls (from 1)
+	// for that hash / for any hash. A non-nil result is returned to the client
+	// as the error of the block download (nil = the block is served).
+	BlockFault func(n *chaingen.Node, nthForBlock, nthOverall int) error
+	// BlockCalls records every GetBlock call (block height, whether it failed
+	// by script); BlockFaults counts the scripted failures.
+	BlockCalls  []BlockCall
+	BlockFaults int
+	blockCount  map[chainhash.Hash]int
+}
+
+// BlockCall is one GetBlock call seen by the scripted network.
+type BlockCall struct {
+	Height int32
+	Failed bool
+}
+
+// BlockFaultCount returns the number of scripted GetBlock failures so far.
+func (n *ScriptNet) BlockFaultCount() int {
+	n.mu.Lock()
+	defer n.mu.Unlock()
+	return n.BlockFaults
 }
 
 func newScriptNet(s *Session) *ScriptNet {
@@ -195,10 +221,30 @@ func (n *ScriptNet) GetBlock(h chainhash.Hash, _ ...neutrino.QueryOption) (*btcu
 	n.mu.Lock()
 	fail := n.BlockFail[h]
 	n.BlocksServed++
+	fault := n.BlockFault
 	n.mu.Unlock()
 	nd := n.s.G.Lookup(h)
 	if fail || nd == nil || nd.Block == nil {
 		return nil, errors.New("scripted network: block unavailable")
+	}
+	if fault != nil {
+		n.mu.Lock()
+		if n.blockCount == nil {
+			n.blockCount = map[chainhash.Hash]int{}
+		}
+		n.blockCount[h]++
+		nth, all := n.blockCount[h], len(n.BlockCalls)+1
+		n.mu.Unlock()
+		err := fault(nd, nth, all)
+		n.mu.Lock()
+		n.BlockCalls = append(n.BlockCalls, BlockCall{nd.Height, err != nil})
+		if err != nil {
+			n.BlockFaults++
+		}
+		n.mu.Unlock()
+		if err != nil {
+			return nil, err
+		}
 	}
 	return btcutil.NewBlock(nd.Block), nil
 }
